@@ -103,7 +103,7 @@ def corrupt_each_byte_case(pr):
     good = open(fs[0], "rb").read()
     pr.commands.append("for every byte offset of the state file (%d bytes): flip it to 0x00 / xor 0x01, delete out.txt, run" % len(good))
     for off in range(len(good)):
-        for newb in (0, good[off] ^ 1):
+        for newb in (0, good[off] ^ 1, 0xFF):
             if newb == good[off]:
                 continue
             with open(fs[0], "wb") as h:
@@ -366,7 +366,7 @@ def prefix_named_targets_case(pr):
         r = pr.run(*names)
         started = sorted(l[2:] for l in pr.log() if l.startswith("s "))
         if started != [victim]:
-            return {"property": "C18", "expected": "after a change to %s's input exactly %s runs; the others (%s) keep their own record and are skipped" % (victim, victim, names), "observed": "started %s" % started, "zinoma": r.brief()}
+            return {"property": ["C18", "C03"], "expected": "after a change to %s's input exactly %s runs; the others (%s) keep their own record and are skipped" % (victim, victim, names), "observed": "started %s" % started, "zinoma": r.brief()}
         pr.clear_log()
         r = pr.run("--clean", victim)
         pr.clear_log()
@@ -693,24 +693,29 @@ def shared_cmd_case(pr):
     bump = _t([{"paths": ["trigger"]}], [{"cmd_stdout": "cat version.txt"}], name="bump", body="sleep 0.5; grep -c . trigger/t.txt > version.txt")
     package = _t(["bump.output"], None, name="package")
     notes = _t([{"cmd_stdout": "cat version.txt"}], None, name="notes")
-    pr.write("zinoma.yml", yml({"bump": bump, "package": package, "notes": notes}))
-    _run_ok(pr, "package", "notes")
+    # warmup looks at the same command a little later - while bump's script is running (it waits for an input-less target)
+    delay = _t(None, None, name="delay", body="sleep 0.2")
+    warmup = _t([{"cmd_stdout": "cat version.txt"}], None, name="warmup", deps=["delay"])
+    pr.write("zinoma.yml", yml({"bump": bump, "package": package, "notes": notes, "delay": delay, "warmup": warmup}))
+    ALLT = ("package", "notes", "warmup")
+    _run_ok(pr, *ALLT)
     pr.clear_log()
-    _run_ok(pr, "package", "notes")          # notes may run again (bump changed the text after notes looked at it)
+    _run_ok(pr, *ALLT)          # notes / warmup may run again (bump changed the text after they looked at it)
     pr.clear_log()
-    _run_ok(pr, "package", "notes")
-    if pr.log():
-        return {"property": "C03", "expected": "third invocation on an untouched tree: nothing runs", "observed": "log %s" % pr.log()}
+    _run_ok(pr, *ALLT)
+    if [l for l in pr.log() if not l.endswith(" delay")]:
+        return {"property": "C03", "expected": "third invocation on an untouched tree: nothing but the input-less `delay` runs", "observed": "log %s" % pr.log()}
+    pr.clear_log()
     pr.edit("trigger/t.txt", "one\ntwo\n")     # bump runs again and changes what `cat version.txt` prints
     pr.clear_log()
-    r = _run_ok(pr, "package", "notes")
+    r = _run_ok(pr, *ALLT)
     log = pr.log()
     if "s bump" not in log:
         return {"property": "C02", "expected": "bump's input changed: it runs", "observed": "log %s" % log, "zinoma": r.brief()}
     if "s package" not in log:
         return {"property": ["C02", "C13"], "expected": "bump changed what `cat version.txt` prints (its declared output, an input of package): package runs in the same invocation", "observed": "package skipped; log %s" % log, "zinoma": r.brief()}
     pr.clear_log()
-    r = _run_ok(pr, "package", "notes")
+    r = _run_ok(pr, *ALLT)
     if "s notes" not in log and "s notes" not in pr.log():
         return {"property": "C02", "expected": "`cat version.txt` (input of notes) prints another text than recorded: notes runs, in that invocation or the next", "observed": "notes skipped twice; log %s" % pr.log(), "zinoma": r.brief()}
     return None
@@ -875,6 +880,71 @@ def shared_cmd_inflight_case(pr):
     return None
 
 
+def non_utf8_names_case(pr):
+    """declared files whose names are not valid UTF-8: a rename among such names (mtime kept) is a change"""
+    import os as _os
+    pr.mkdir("src")
+    a = pr.writeb(b"src/caf\xe9.txt", b"coffee")
+    pr.writeb(b"src/na\xefve.txt", b"x")
+    pr.write("src/plain.txt", "p")
+    pr.write("zinoma.yml", yml({"t": _t([{"paths": ["src"]}], None)}))
+    _run_ok(pr, "t")
+    pr.clear_log()
+    pr.run("t")
+    b = _os.path.join(_os.fsencode(pr.root), b"src/caf\xe8.txt")
+    _os.rename(a, b)                      # keeps the modification time
+    pr.commands.append("mv src/caf\\xe9.txt src/caf\\xe8.txt")
+    pr.clear_log()
+    r = pr.run("t")
+    if r.rc != 0 or not _ran(pr):
+        return {"property": "C02", "expected": "a declared file was renamed (both names are not valid UTF-8, the modification time is kept): the script runs, exit 0", "observed": "exit %s, script ran %s" % (r.rc, _ran(pr)), "zinoma": r.brief()}
+    _os.remove(b)
+    pr.clear_log()
+    r = pr.run("t")
+    if r.rc != 0 or not _ran(pr):
+        return {"property": "C02", "expected": "a declared file with a non-UTF-8 name was removed: the script runs", "observed": "exit %s, script ran %s" % (r.rc, _ran(pr)), "zinoma": r.brief()}
+    return None
+
+
+def skipped_build_with_service_case(pr):
+    """schema (no input, always executed) <- db (service) <- itest (build with input): on the second run itest is skipped,
+    and the rest of its closure is still brought up: schema is executed by every invocation"""
+    pr.write("tsrc/t.txt", "1")
+    svc = 'echo "pid svc $$" >> "$ZLOG"\nsleep 30'
+    ts = {"schema": _t(None, None, name="schema"), "db": {"dependencies": ["schema"], "service": svc}, "itest": _t([{"paths": ["tsrc"]}], None, name="itest", deps=["db"])}
+    pr.write("zinoma.yml", yml(ts))
+    _run_ok(pr, "itest")
+    for rep in (2, 3):
+        pr.clear_log()
+        r = _run_ok(pr, "itest")
+        if "s itest" in pr.log():
+            return {"property": "C03", "expected": "itest's resources are unchanged: skipped", "observed": "log %s" % pr.log(), "zinoma": r.brief()}
+        if "s schema" not in pr.log():
+            return {"property": "C08", "expected": "invocation %d: every target of the closure of itest is executed or skipped - schema declares no input, so it is executed" % rep, "observed": "schema did not run; log %s" % pr.log(), "zinoma": r.brief()}
+    return None
+
+
+def nested_project_state_case(pr):
+    """app imports vendor/lib and declares `paths: [vendor]` as input of bundle: lib's own recorded state (below
+    vendor/lib/.zinoma) is not part of bundle's inputs"""
+    pr.write("vendor/lib/src/l.txt", "l1")
+    pr.write("vendor/lib/zinoma.yml", yml({"gen": _t([{"paths": ["src"]}], None, name="gen"), "flaky": _t([{"paths": ["src"]}], None, name="flaky", body="if [ -f bad ]; then exit 1; fi")}, name="lib"))
+    pr.write("zinoma.yml", yml({"bundle": _t([{"paths": ["vendor"]}], None, name="bundle")}, name="app", imports={"lib": "vendor/lib"}))
+    _run_ok(pr, "bundle")
+    pr.clear_log()
+    _run_ok(pr, "bundle")
+    if "s bundle" in pr.log():
+        return None
+    steps = [(["lib::gen"], "building lib::gen"), (["lib::flaky"], "building lib::flaky"), (["--clean", "lib::gen"], "cleaning lib::gen")]
+    for args, what in steps:
+        pr.run(*args)
+        pr.clear_log()
+        r = _run_ok(pr, "bundle")
+        if "s bundle" in pr.log():
+            return {"property": ["C18", "C15"], "expected": "%s (a target of the project nested below bundle's input path) writes only below vendor/lib/.zinoma: bundle is still skipped" % what, "observed": "bundle ran", "zinoma": r.brief()}
+    return None
+
+
 def cases(seed, tier="quick"):
     C = lambda n, fn, what: Case("incr", n, fn, what)
     out = [
@@ -899,6 +969,9 @@ def cases(seed, tier="quick"):
         C("corrupt-each-byte", corrupt_each_byte_case, "every single-byte corruption of the record + a changed output"),
         C("cmd-input", cmd_input_case, "cmd_stdout input of the target itself"),
         C("shared-cmd-inflight", shared_cmd_inflight_case, "the same slow command declared by two targets"),
+        C("non-utf8-names", non_utf8_names_case, "declared files with names that are not valid UTF-8"),
+        C("skipped-build-with-service", skipped_build_with_service_case, "a skipped build whose service dependency has dependencies"),
+        C("nested-project-state", nested_project_state_case, "a project nested below another target's input path"),
         C("dep-without-input", dep_without_input_case, "dependent of an always-executed target"),
         C("big-cmd-output", big_cmd_output_case, "a command printing 300 kB"),
         C("config-edit-between-runs", config_edit_between_runs_case, "input removed and restored in the project file around a failed build"),
